@@ -390,11 +390,15 @@ def run(prop, tier, seed):
     if callable(req):
         req = req(tier)
     missing = [k for k, n in req.items() if counters.get(k, 0) < n]
+    vacuity = None
     if missing:
-        raise HarnessError("vacuity guard: coverage facts not met: %s (have %s)" % (
-            missing, {k: counters.get(k, 0) for k in missing}))
-    if tot["evals"] == 0 or len(outcomes) < 2:
-        raise HarnessError("vacuity guard: evals=%d distinct outcomes=%d" % (tot["evals"], len(outcomes)))
+        vacuity = "vacuity guard: coverage facts not met: %s (have %s)" % (
+            missing, {k: counters.get(k, 0) for k in missing})
+    elif tot["evals"] == 0 or len(outcomes) < 2:
+        vacuity = "vacuity guard: evals=%d distinct outcomes=%d" % (tot["evals"], len(outcomes))
+    if vacuity and not viols:
+        # (with violations present the exploration may legitimately have stopped early; report those instead)
+        raise HarnessError(vacuity)
     # 5. cluster violations by signature, smallest witness first
     from .jsonutil import jdump, jsonable
 
